@@ -137,6 +137,7 @@ Section Correct.
   Variable sccs_of : list (modid * list modid) -> list (list modid).
   Variable reach : list (modid * list modid) -> modid -> modid -> bool.
   Variable sdo_of : list modid -> opts -> nat.
+  Variable thash : list (modid * list modid) -> modid -> nat.
   Variable ign_of : modid -> stamp -> opts -> bool.
   Variable blocker : modid -> content -> bool.
 
@@ -162,6 +163,12 @@ Section Correct.
   Hypothesis sccs_spec : forall dm, graph_ok dm -> sccs_ok dm (sccs_of dm).
   Hypothesis reach_before : forall dm L1 S L2 m d,
     sccs_of dm = L1 ++ S :: L2 -> In m S -> reach dm m d = true -> In d (concat L1 ++ S).
+  (* hash injectivity, as used by the fast path of verify_transitive_deps: equal trans_dep_hash => same transitive
+     import structure below the module, hence the same reachable modules *)
+  Hypothesis thash_reach : forall dm dm' m, thash dm m = thash dm' m -> forall d, reach dm m d = reach dm' m d.
+  (* mypy's stated invariant: indirect dependencies reported by the analysis are reachable through direct imports *)
+  Hypothesis indirect_reach : forall dm S src o env m d,
+    In S (sccs_of dm) -> In m S -> In d (r_indirect (analyze S src o env m)) -> reach dm m d = true.
 
   Notation find_cache_meta := Model.find_cache_meta.
   Notation load_meta := (Model.load_meta content_of ign_of).
@@ -175,14 +182,14 @@ Section Correct.
   Notation depmap := (Model.depmap content_of imports probes ign_of).
   Notation is_fresh := (Model.is_fresh content_of sdo_of ign_of).
   Notation dep_hashes_ok := (Model.dep_hashes_ok content_of ign_of).
-  Notation trans_ok := (Model.trans_ok content_of reach ign_of).
-  Notation scc_fresh := (Model.scc_fresh content_of reach sdo_of ign_of).
+  Notation trans_ok := (Model.trans_ok content_of reach thash ign_of).
+  Notation scc_fresh := (Model.scc_fresh content_of reach sdo_of thash ign_of).
   Notation cached_pm := (Model.cached_pm content_of ign_of).
   Notation fresh_pm := (Model.fresh_pm ign_of).
   Notation src_of := (Model.src_of content_of).
-  Notation write_module := (Model.write_module content_of imports probes sdo_of ign_of).
-  Notation process_scc := (Model.process_scc content_of imports probes analyze reach sdo_of ign_of).
-  Notation run := (Model.run content_of imports probes analyze sccs_of reach sdo_of ign_of).
+  Notation write_module := (Model.write_module content_of imports probes sdo_of thash ign_of).
+  Notation process_scc := (Model.process_scc content_of imports probes analyze reach sdo_of thash ign_of).
+  Notation run := (Model.run content_of imports probes analyze sccs_of reach sdo_of thash ign_of).
 
   Definition eo (e : meta) : opts := {| o_snap := m_snap e; o_version := m_version e; o_plugin := m_plugin e |}.
 
@@ -196,7 +203,8 @@ Section Correct.
       (forall d h, In (d, h) (combine (m_deps e ++ x_deps x) (m_dep_hashes e ++ x_dep_hashes x)) -> envm d = Some h) /\
       length (m_dep_hashes e ++ x_dep_hashes x) = length (m_deps e ++ x_deps x) /\
       (forall d, In d (m_supp e) -> envm d = None) /\
-      (forall d, In d (probes m (m_hash e) (eo e)) -> In d (m_deps e) \/ envm d = None).
+      (forall d, In d (probes m (m_hash e) (eo e)) -> In d (m_deps e) \/ envm d = None) /\
+      (forall dm d, thash dm m = m_thash e -> In d (r_indirect r) -> reach dm m d = true).
 
   Definition CacheOK (c : store) : Prop :=
     (forall m e x, s_meta c m = Some e -> s_ex c m = Some x -> EntryOK m e x) /\
@@ -386,12 +394,13 @@ Section Correct.
     destruct (fresh_parts _ _ _ _ _ _ _ HF Hm) as [F1 [F2 F3]].
     destruct (is_fresh_spec _ _ _ _ F1) as [e [x [L [Hall Hsupp]]]].
     destruct (load_ok _ _ _ _ _ _ HC L) as [s [d [Hs [Hme [Hx [Hd [Ho [Hh [Hdi [[_ [envm EOK]] [Hfind Hig]]]]]]]]]]].
-    simpl in EOK. destruct EOK as [E1 [E2 [E3 [E4 [E5 [E6 [E7 E8]]]]]]].
+    simpl in EOK. destruct EOK as [E1 [E2 [E3 [E4 [E5 [E6 [E7 [E8 E9]]]]]]]].
     exists s; split; auto. rewrite (cached_pm_eq _ _ _ _ _ _ _ _ L Hd Hs); simpl.
     set (env' := env ++ map (fun x0 => (x0, cached_pm c o fs x0)) S).
     rewrite Hh, Ho in *.
-    assert (AG : forall d0, In d0 (m_deps e ++ x_deps x) -> envm d0 = ienv env' d0).
-    { intros d0 Hd0. destruct (combine_In_ex _ _ d0 E6 Hd0) as [h Hh0]. rewrite (E5 _ _ Hh0).
+    assert (AG : forall d0, In d0 (m_deps e ++ x_deps x) ->
+                 In d0 (m_deps e) \/ In d0 (r_indirect (check m (content_of m s) o envm)) -> envm d0 = ienv env' d0).
+    { intros d0 Hd0 HR. destruct (combine_In_ex _ _ d0 E6 Hd0) as [h Hh0]. rewrite (E5 _ _ Hh0).
       unfold Model.dep_hashes_ok in F2. rewrite L in F2. rewrite forallb_forall in F2. specialize (F2 _ Hh0). simpl in F2.
       rewrite (Hall _ Hd0) in F2. simpl in F2. apply Nat.eqb_eq in F2. unfold Model.cur_hash in F2.
       unfold ienv, env'. destruct (lookup env d0) as [q|] eqn:Q.
@@ -399,10 +408,14 @@ Section Correct.
       - rewrite lookup_app_r by auto.
         assert (In d0 S).
         { assert (In d0 (map fst env ++ S)).
-          { apply in_app_or in Hd0 as [Hd0|Hd0].
-            - eapply Stopo; eauto. unfold Model.direct_deps, Model.cands. rewrite L. apply found_In. split.
-              apply in_or_app; auto. apply Hall. apply in_or_app; auto.
-            - unfold Model.trans_ok in F3. rewrite L in F3. rewrite forallb_forall in F3. specialize (F3 _ Hd0).
+          { assert (DIR : In d0 (m_deps e) -> In d0 (map fst env ++ S)).
+            { intros A. eapply Stopo; eauto. unfold Model.direct_deps, Model.cands. rewrite L. apply found_In. split.
+              apply in_or_app; auto. apply Hall. apply in_or_app; auto. }
+            destruct HR as [HRd|HRi]; auto.
+            apply in_app_or in Hd0 as [Hd0|Hd0]; auto.
+            unfold Model.trans_ok in F3. rewrite L in F3. apply orb_true_iff in F3 as [FT|F3].
+            - apply Nat.eqb_eq in FT. rewrite Hdom. eapply reach_before; eauto.
+            - rewrite forallb_forall in F3. specialize (F3 _ Hd0).
               apply orb_true_iff in F3 as [F3|F3]. apply mem_In in F3. apply in_or_app; auto.
               rewrite Hdom. eapply reach_before; eauto. }
           apply in_app_or in H as [H|H]; auto. apply lookup_None in Q. tauto. }
@@ -423,14 +436,14 @@ Section Correct.
     apply check_reads. intros d0 [Hd0|Hd0].
     - apply in_app_or in Hd0 as [Hd0|Hp].
       + apply E3 in Hd0. apply in_app_or in Hd0 as [Hd0|Hd0].
-        * apply AG. apply in_or_app; auto.
+        * apply AG; [apply in_or_app; auto | left; auto].
         * rewrite (E7 _ Hd0). symmetry. apply DOM.
           destruct (inG fs d0) eqn:G; auto. assert (In d0 (found fs (m_supp e))) by (apply found_In; auto).
           rewrite Hsupp in H. inversion H.
       + destruct (inG fs d0) eqn:G.
-        * apply AG. apply in_or_app; left. eapply HP; eauto.
-        * destruct (E8 _ Hp) as [X|X]. apply AG; apply in_or_app; auto. rewrite X. symmetry. apply DOM; auto.
-    - apply AG. apply E4. auto.
+        * assert (In d0 (m_deps e)) by (eapply HP; eauto). apply AG; [apply in_or_app; auto | left; auto].
+        * destruct (E8 _ Hp) as [X|X]. apply AG; [apply in_or_app; auto | left; auto]. rewrite X. symmetry. apply DOM; auto.
+    - apply AG; [apply E4; auto | right; auto].
   Qed.
   (* ---- a stale SCC: the re-analysed results solve the equations *)
   Lemma ienv_stale : forall fs o (env : penv) S (R : modid -> result) d,
@@ -499,20 +512,22 @@ Section Correct.
     apply lookup_Some_dom in Q. split; auto. eapply good_dom; eauto.
   Qed.
 
-  Lemma new_entry_ok : forall c o fs (env' : penv) m s (R : modid -> result) dmt,
+  Lemma new_entry_ok : forall c o fs (env' : penv) m s (R : modid -> result) dmt dm,
     CacheOK c -> ProbeFresh c o fs -> Good fs o env' -> Closed fs o env' -> In m (map fst env') -> lookup fs m = Some s ->
     R m = check m (content_of m s) o (ienv env') -> blocker m (content_of m s) = false ->
+    (forall d, In d (r_indirect (R m)) -> reach dm m d = true) ->
     EntryOK m
       {| m_stamp := s; m_hash := content_of m s; m_deps := direct_deps c o fs m s; m_supp := supp_deps c o fs m s;
          m_snap := o_snap o; m_version := o_version o; m_plugin := o_plugin o;
          m_sdo := sdo_of (supp_deps c o fs m s) o; m_ihash := r_iface (R m);
-         m_dep_hashes := map (cur_hash c o env') (direct_deps c o fs m s); m_ignore_all := ign_of m s o;
+         m_dep_hashes := map (cur_hash c o env') (direct_deps c o fs m s); m_thash := thash dm m;
+         m_ignore_all := ign_of m s o;
          m_data_mtime := dmt |}
       {| x_deps := new_indirect c o fs m s (R m);
          x_dep_hashes := map (cur_hash c o env') (new_indirect c o fs m s (R m));
          x_errors := if ign_of m s o then [] else r_errors (R m) |}.
   Proof.
-    intros c o fs env' m s R dmt HC HP HG HCl Hm Hs HR HNB.
+    intros c o fs env' m s R dmt dm HC HP HG HCl Hm Hs HR HNB HRch.
     set (deps := direct_deps c o fs m s). set (supp := supp_deps c o fs m s).
     set (ind := new_indirect c o fs m s (R m)).
     assert (INDG : forall d, In d ind -> inG fs d = true).
@@ -568,8 +583,10 @@ Section Correct.
         apply DEPG in M; congruence. apply INDG in M; congruence. }
     split.
     { intros d Hd. apply notfound_In in Hd as [_ Hd]. apply NONE; auto. }
+    split.
     { intros d Hd. destruct (inG fs d) eqn:G; [|right; apply NONE; auto]. left. apply found_In; split; auto.
       eapply imports_in_cands; eauto. apply in_or_app; auto. }
+    { intros dm' d Heq Hd. rewrite (thash_reach dm' dm m Heq). apply HRch. exact Hd. }
   Qed.
   (* ---- writing the cache records of one module *)
   Definition same_at (c1 c2 : store) (m : modid) : Prop :=
@@ -580,14 +597,15 @@ Section Correct.
   Lemma upd_other : forall A (f : modid -> option A) m v m', m' <> m -> upd f m v m' = f m'.
   Proof. intros; unfold upd. apply Nat.eqb_neq in H. rewrite H; auto. Qed.
 
-  Lemma write_module_spec : forall c o fs now (env' : penv) (R : modid -> result) c' m s,
+  Lemma write_module_spec : forall c o fs now dm (env' : penv) (R : modid -> result) c' m s,
     CacheOK c -> ProbeFresh c o fs -> CacheOK c' -> s_data c' m = s_data c m ->
     Good fs o env' -> Closed fs o env' -> In m (map fst env') -> lookup fs m = Some s ->
     R m = check m (content_of m s) o (ienv env') -> blocker m (content_of m s) = false ->
-    CacheOK (write_module c o fs now env' R c' m) /\
-    (forall m', m' <> m -> same_at (write_module c o fs now env' R c' m) c' m').
+    (forall d, In d (r_indirect (R m)) -> reach dm m d = true) ->
+    CacheOK (write_module c o fs now dm env' R c' m) /\
+    (forall m', m' <> m -> same_at (write_module c o fs now dm env' R c' m) c' m').
   Proof.
-    intros c o fs now env' R c' m s HC HP HC' Hdata HG HCl Hm Hs HR HNB.
+    intros c o fs now dm env' R c' m s HC HP HC' Hdata HG HCl Hm Hs HR HNB HRch.
     unfold Model.write_module. rewrite Hs.
     set (old_h := match find_cache_meta c o m with Some (e, _) => m_ihash e | None => 0 end).
     assert (OLD : old_h = r_iface (R m) -> forall d, s_data c m = Some d -> d_iface d = r_iface (R m)).
@@ -625,19 +643,20 @@ Section Correct.
       + intros m' N. unfold same_at; simpl. rewrite !upd_other by auto. auto.
   Qed.
 
-  Lemma write_fold_spec : forall c o fs now (env' : penv) (R : modid -> result) S c',
+  Lemma write_fold_spec : forall c o fs now dm (env' : penv) (R : modid -> result) S c',
     CacheOK c -> ProbeFresh c o fs -> CacheOK c' -> NoDup S -> (forall m, In m S -> s_data c' m = s_data c m) ->
     Good fs o env' -> Closed fs o env' ->
     (forall m, In m S -> In m (map fst env') /\ exists s, lookup fs m = Some s /\ R m = check m (content_of m s) o (ienv env') /\
-                                                          blocker m (content_of m s) = false) ->
-    CacheOK (fold_left (write_module c o fs now env' R) S c') /\
-    (forall m', ~ In m' S -> same_at (fold_left (write_module c o fs now env' R) S c') c' m').
+                                                          blocker m (content_of m s) = false /\
+                                                          (forall d, In d (r_indirect (R m)) -> reach dm m d = true)) ->
+    CacheOK (fold_left (write_module c o fs now dm env' R) S c') /\
+    (forall m', ~ In m' S -> same_at (fold_left (write_module c o fs now dm env' R) S c') c' m').
   Proof.
-    intros c o fs now env' R S. induction S as [|m S IH]; simpl; intros c' HC HP HC' ND Hd HG HCl HS.
+    intros c o fs now dm env' R S. induction S as [|m S IH]; simpl; intros c' HC HP HC' ND Hd HG HCl HS.
     - split; auto. intros; unfold same_at; auto.
-    - inversion ND; subst. destruct (HS m (or_introl eq_refl)) as [Hm [s [Hs [HR HNB]]]].
-      destruct (write_module_spec c o fs now env' R c' m s HC HP HC' (Hd _ (or_introl eq_refl)) HG HCl Hm Hs HR HNB) as [W1 W2].
-      destruct (IH (write_module c o fs now env' R c' m)) as [I1 I2]; auto.
+    - inversion ND; subst. destruct (HS m (or_introl eq_refl)) as [Hm [s [Hs [HR [HNB HRch]]]]].
+      destruct (write_module_spec c o fs now dm env' R c' m s HC HP HC' (Hd _ (or_introl eq_refl)) HG HCl Hm Hs HR HNB HRch) as [W1 W2].
+      destruct (IH (write_module c o fs now dm env' R c' m)) as [I1 I2]; auto.
       + intros m0 Hm0. assert (m0 <> m) by (intro; subst; auto). destruct (W2 _ H) as [_ [_ W]]. rewrite W. auto.
       + split; auto. intros m' Hm'. assert (m' <> m) by (intro; subst; auto).
         destruct (I2 m') as [A1 [A2 A3]]; auto. destruct (W2 _ H) as [B1 [B2 B3]]. unfold same_at. repeat split; congruence.
@@ -671,11 +690,12 @@ Section Correct.
         exists s; split; auto. simpl. unfold Model.ign_now. rewrite Hs, <- HR. auto. }
       assert (C' : Closed fs o env').
       { apply (closed_step c o fs L1 S L2 env _ HC HP HFS HL Hdom); auto. rewrite map_map; simpl. apply map_id. }
-      destruct (write_fold_spec c o fs now env' R S c' HC HP HC' SND) as [W1 W2]; auto.
+      destruct (write_fold_spec c o fs now (depmap c o fs) env' R S c' HC HP HC' SND) as [W1 W2]; auto.
       { intros m Hm. apply Hfr. rewrite <- Hdom. auto. }
       { intros m Hm. split.
         - unfold env'. rewrite map_app, map_map; simpl. rewrite map_id. apply in_or_app; auto.
-        - destruct (stale_good c o fs L1 S L2 env m HFS HL Hdom Hm) as [s [Hs HR]]. exists s. split; auto. }
+        - destruct (stale_good c o fs L1 S L2 env m HFS HL Hdom Hm) as [s [Hs HR]]. exists s. split; auto. split; auto. split; auto.
+          intros d Hd. eapply indirect_reach; eauto. rewrite HL. apply in_or_app; right; left; auto. }
       unfold Inv; simpl. rewrite CC. split.
       { unfold env'. rewrite map_app, map_map; simpl. rewrite map_id. congruence. }
       split; auto. split; auto. split; auto.
@@ -826,10 +846,10 @@ Section Correct.
 
   (* ---- blocking errors *)
   Notation blocked := (Model.blocked content_of ign_of blocker).
-  Notation run_b := (Model.run_b content_of imports probes analyze sccs_of reach sdo_of ign_of blocker).
-  Notation warm := (Model.warm content_of imports probes analyze sccs_of reach sdo_of ign_of blocker).
-  Notation cold := (Model.cold content_of imports probes analyze sccs_of reach sdo_of ign_of blocker).
-  Notation runs := (Model.runs content_of imports probes analyze sccs_of reach sdo_of ign_of blocker).
+  Notation run_b := (Model.run_b content_of imports probes analyze sccs_of reach sdo_of thash ign_of blocker).
+  Notation warm := (Model.warm content_of imports probes analyze sccs_of reach sdo_of thash ign_of blocker).
+  Notation cold := (Model.cold content_of imports probes analyze sccs_of reach sdo_of thash ign_of blocker).
+  Notation runs := (Model.runs content_of imports probes analyze sccs_of reach sdo_of thash ign_of blocker).
 
   Lemma In_lookup : forall (fs : FS) m s, FSOK fs -> In (m, s) fs -> lookup fs m = Some s.
   Proof.
@@ -925,6 +945,7 @@ Section Packaged.
   Variable sccs_of : list (modid * list modid) -> list (list modid).
   Variable reach : list (modid * list modid) -> modid -> modid -> bool.
   Variable sdo_of : list modid -> opts -> nat.
+  Variable thash : list (modid * list modid) -> modid -> nat.
   Variable ign_of : modid -> stamp -> opts -> bool.
   Variable blocker : modid -> content -> bool.
 
@@ -944,15 +965,20 @@ Section Packaged.
   Record GraphContract : Prop := {
     gc_sccs : forall dm, graph_ok dm -> sccs_ok dm (sccs_of dm);
     gc_reach : forall dm L1 S L2 m d,
-      sccs_of dm = L1 ++ S :: L2 -> In m S -> reach dm m d = true -> In d (concat L1 ++ S) }.
+      sccs_of dm = L1 ++ S :: L2 -> In m S -> reach dm m d = true -> In d (concat L1 ++ S);
+    (* hash injectivity behind the fast path of verify_transitive_deps *)
+    gc_thash : forall dm dm' m, thash dm m = thash dm' m -> forall d, reach dm m d = reach dm' m d;
+    (* mypy's invariant: reported indirect dependencies are reachable through direct imports *)
+    gc_indirect_reach : forall dm S src o env m d,
+      In S (sccs_of dm) -> In m S -> In d (r_indirect (analyze S src o env m)) -> reach dm m d = true }.
 
-  Notation CacheOK := (CacheOK content_of imports probes check blocker).
+  Notation CacheOK := (CacheOK content_of imports probes check reach thash blocker).
   Notation ProbeFresh := (ProbeFresh content_of probes ign_of).
-  Notation HistOK := (HistOK content_of imports probes analyze sccs_of reach sdo_of ign_of blocker).
+  Notation HistOK := (HistOK content_of imports probes analyze sccs_of reach sdo_of thash ign_of blocker).
   Notation Unique := (Unique content_of check ign_of).
-  Notation warm := (Model.warm content_of imports probes analyze sccs_of reach sdo_of ign_of blocker).
-  Notation cold := (Model.cold content_of imports probes analyze sccs_of reach sdo_of ign_of blocker).
-  Notation runs := (Model.runs content_of imports probes analyze sccs_of reach sdo_of ign_of blocker).
+  Notation warm := (Model.warm content_of imports probes analyze sccs_of reach sdo_of thash ign_of blocker).
+  Notation cold := (Model.cold content_of imports probes analyze sccs_of reach sdo_of thash ign_of blocker).
+  Notation runs := (Model.runs content_of imports probes analyze sccs_of reach sdo_of thash ign_of blocker).
 
   Lemma p_run_preserves_CacheOK : AnalysisContract -> GraphContract ->
     forall c fs o now, CacheOK c -> ProbeFresh c o fs -> FSOK fs -> CacheOK (snd (warm c fs o now)).
@@ -974,7 +1000,7 @@ Section Packaged.
   (* programs without `from pkg import maybe_a_submodule`: the full statement *)
   Lemma p_history_noprobes : AnalysisContract -> GraphContract -> (forall m c o, probes m c o = []) ->
     (forall fs o, FSOK fs -> Unique fs o) ->
-    Statement.warm_equals_cold_for_all_histories content_of imports probes analyze sccs_of reach sdo_of ign_of blocker.
+    Statement.warm_equals_cold_for_all_histories content_of imports probes analyze sccs_of reach sdo_of thash ign_of blocker.
   Proof.
     intros AC GC NP HU h fs o n n' Hh Hfs. apply p_history_partial; auto.
     - destruct AC, GC. eapply HistOK_noprobes; eauto.
